@@ -220,6 +220,19 @@ pub fn run(o: &Opts) {
             Err(m) => bad = bad.or(Some(format!("{f}: {m}"))),
           }
         }
+        // tie: the model's update_file on (old text, announced edits in document order) per file
+        for (f, old) in &before {
+          let edits = per_file.get(f).cloned().unwrap_or_default();
+          if edits.is_empty() || file_langs.get(f).map(|l| l.len()).unwrap_or(0) > 1 {
+            continue;
+          }
+          let accepted = splice(old, &edits).map(|x| x.1).unwrap_or(0);
+          let changed = after.get(f) != Some(old);
+          let exp_new = if accepted == 0 { crate::val::Val::opt(None) } else { crate::val::Val::opt(Some(crate::val::Val::bytes(after.get(f).map(|v| v.as_slice()).unwrap_or(&[])))) };
+          let _ = changed;
+          out.case(43, &crate::vl![crate::val::Val::bytes(old), crate::val::Val::L(edits.iter().map(|(s, e, r)| crate::vl![crate::val::Val::n(*s), crate::val::Val::n(*e), crate::val::Val::str_bytes(r)]).collect())],
+            &crate::vl![crate::val::Val::Z(0), exp_new, crate::val::Val::n(accepted)], &format!("update_file {f} ({} announced edits) {}", edits.len(), what.chars().take(200).collect::<String>()));
+        }
         let applied: usize = ru.stdout.lines().find_map(|l| l.strip_prefix("Applied ").and_then(|x| x.split(' ').next()).and_then(|x| x.parse().ok())).unwrap_or(0);
         if bad.is_none() && applied != total {
           bad = Some(format!("the command reports {applied} applied changes, {total} edits are present in the files"));
